@@ -34,7 +34,24 @@ def log(*a):
     print(*a, flush=True)
 
 
-def run(cmd, cwd=None, timeout=None, env=None, logfile=None):
+def _watch_memory(sid, cap_kb, stop):
+    """Kill solver processes of session `sid` whose resident set exceeds `cap_kb`."""
+    while not stop.wait(5.0):
+        try:
+            out = subprocess.run(["ps", "-eo", "pid,sid,rss,comm"], stdout=subprocess.PIPE, text=True).stdout
+        except Exception:
+            continue
+        for line in out.split("\n")[1:]:
+            f = line.split()
+            if len(f) >= 4 and f[3].startswith(("cbmc", "goto-", "kissat", "cadical", "z3")):
+                try:
+                    if int(f[1]) == sid and int(f[2]) > cap_kb:
+                        os.kill(int(f[0]), 9)
+                except (ValueError, ProcessLookupError):
+                    pass
+
+
+def run(cmd, cwd=None, timeout=None, env=None, logfile=None, mem_cap_kb=None):
     """Run a command in its own process group; on timeout the whole group (cargo, kani-driver,
     cbmc, solvers) is killed.  With `logfile` the output is streamed there (readable while the
     command runs)."""
@@ -44,6 +61,11 @@ def run(cmd, cwd=None, timeout=None, env=None, logfile=None):
         fh = open(logfile, "w")
         p = subprocess.Popen(cmd, cwd=cwd, env=env or ENV, stdout=fh, stderr=subprocess.STDOUT,
                              start_new_session=True)
+        stop = None
+        if mem_cap_kb:
+            import threading
+            stop = threading.Event()
+            threading.Thread(target=_watch_memory, args=(p.pid, mem_cap_kb, stop), daemon=True).start()
         try:
             p.wait(timeout=timeout)
             rc, extra = p.returncode, ""
@@ -54,6 +76,8 @@ def run(cmd, cwd=None, timeout=None, env=None, logfile=None):
                 pass
             p.wait()
             rc, extra = -9, "\n<<TIMEOUT>>"
+        if stop:
+            stop.set()
         fh.close()
         out = open(logfile, errors="replace").read() + extra
         return rc, out, time.time() - t0
@@ -305,11 +329,10 @@ def run_kani_group(ws, group, harnesses, jobs, timeout, logfile=None):
     env = dict(ENV, CARGO_TARGET_DIR=target_dir())
 
     cmd = kani_cmd(group, harnesses, jobs, ["-j", str(jobs), "--output-format", "terse", "--exact"])
-    # address-space cap per process (DESIGN 3.5): a runaway solver ends as UNDECIDED, not as an
-    # out-of-memory kill of its neighbours
-    if shutil.which("prlimit"):
-        cmd = ["prlimit", "--as=%d" % (int(group.get("mem_gb", 20)) * 1024 ** 3)] + cmd
-    rc, out, wall = run(cmd, cwd=ws, timeout=timeout, env=env, logfile=logfile)
+    # resident-memory cap per solver process (DESIGN 3.5): a watchdog kills a cbmc that grows
+    # beyond the cap, which ends as UNDECIDED for that harness instead of an OOM kill of others
+    rc, out, wall = run(cmd, cwd=ws, timeout=timeout, env=env, logfile=logfile,
+                        mem_cap_kb=int(group.get("mem_gb", 22)) * 1024 * 1024)
     return cmd, rc, out, wall
 
 
